@@ -35,6 +35,7 @@ def run(ctx):
                       ctx.path("pressure.ndjson"))
     out = ctx.harness(binary, ["-plans", pdir, "-out", rt, "-maps", mp, "-races", rc, "-seed", ctx.seed,
                                "-pressure", pr, "-npress", ctx.q(200, 4000),
+                               "-nneigh", ctx.q(2, 8), "-nmix", ctx.q(10, 300),
                                "-nrace", ctx.q(4000, 80000), "-nracekeep", ctx.q(900, 20000),
                                "-nroutecold", ctx.q(100, 3000), "-nrand", ctx.q(16, 120), "-nextra", ctx.q(2, 24),
                                "-hist", ctx.q(150, 4000), "-maxops", ctx.q(60, 200)],
@@ -114,8 +115,13 @@ def run(ctx):
              "content) under 10 concrete key schemes x variants, + seeded random histories over mixed-type keys; "
              "race rounds: fresh sharded container (1..3 shards, 6 variants), 2..4 goroutines released by a spin "
              "barrier, 1..3 calls each on 2..4 distinct keys, kept only if calls overlapped, closed by a sequential "
-             "Get+Exist probe of every key; value kinds: int, string, struct, pointer, slice, map, func, nil, "
-             "struct-with-slice (LRUs: five types with Size()), one kind per history or mixed; configurations: no option (73), 1, 2, 3 .. 100003 shards, LRU capacity "
+             "Get+Exist probe of every key (a fifth of the rounds on a container emptied again by removals, a fifth "
+             "on one holding one entry); degenerate keys (empty string / Bs, zeros, nil []byte), key lengths "
+             "2^j and +-1 (4..4096) named compactly, shard counts next to powers of two; long runs (255..65537 "
+             "calls, one run-length encoded event) of Set with changing values / Get / Exist and of one routing "
+             "question; several configurations alive at once asked alternately (A, B, back to A); value kinds: int, string, struct, pointer, slice, map, func, nil, "
+             "struct-with-slice, typed nil pointer (LRUs: six types with Size()), one kind per history, mixed by id, "
+             "or moving on with every Set; configurations: no option (73), 1, 2, 3 .. 100003 shards, LRU capacity "
              "far / 0 / 1 / n-1 / n / MaxInt64-1 / MaxInt64; pressure: 4 wide LRUs x 1..3 shards x capacity 0..3n+2, "
              "(capacity/n+3) keys per shard; cold-start routing: fresh ReMap x 2..4 goroutines x 5..10 questions",
         explanation="ShardAlg.tla (NewReMap table, sort.Search bisection, clamp, modulo) model-checked for all "
